@@ -103,7 +103,10 @@ def command_jobs(tier, wd, seed):
         rng = random.Random(seed)
         cap = 6000 if tier == "thorough" else 1500
         if len(progs) > cap:
-            progs = rng.sample(progs, cap)
+            # (what a subclass adds or overrides itself is always kept)
+            own = [p for p in progs if cls.startswith("SubPool") and table[p["cmd"] - 1]["member"] in vars(pcls)][:cap // 2]
+            rest = [p for p in progs if p not in own]
+            progs = own + rng.sample(rest, cap - len(own))
         for i, pr in enumerate(progs):
             cmd = table[pr["cmd"] - 1]
             choice = {cmd["params"][j]["name"]: v - 1 for j, v in enumerate(pr["choice"]) if v > 0}
@@ -111,7 +114,7 @@ def command_jobs(tier, wd, seed):
             prefixes = PREFIXES[cls]
             # the awaited methods behave very differently depending on what is in the pool: run them after every prefix
             pres = prefixes if cmd["member"] in ("flush", "gather_and_close", "until_closed", "cancel", "cancel_group", "stop") \
-                else [prefixes[i % len(prefixes)]]
+                or (cls.startswith("SubPool") and cmd["member"] in vars(pcls)) else [prefixes[i % len(prefixes)]]      # (a subclass's own members: after every prefix)
             for pre in pres:
                 script = [{"c": "connect", "s": 0, "width": 80, "style": 1 if i % 4 == 3 else 0}, {"c": "idle"}]
                 for text, pcall in pre:
